@@ -15,7 +15,7 @@ from .verifier import Verifier
 from . import solve
 from . import lemmas
 
-CONTRACT_MODULES = ["schedule", "basic_schedules", "multistage", "twolevel", "mixed"]
+CONTRACT_MODULES = ["schedule", "basic_schedules", "multistage", "twolevel", "mixed", "seq_basic", "hrevolve"]
 VERIF = os.path.dirname(os.path.dirname(os.path.abspath(__file__)))
 
 
@@ -201,6 +201,8 @@ def _gen_worker(job):
                 else solve.to_smt2(ob.pc, ob.goal)})
         covers = []
         for site, pc in r["covers"]:
+            if site.startswith("raise") or site.startswith("call"):
+                continue      # vacuity is about reaching yields / returns / back edges
             sv = z3.Solver()
             for c in pc:
                 sv.add(c)
@@ -233,8 +235,10 @@ def verify(repo="/repo", only=None, props=None, timeout_s=20, verbose=False):
     recs = [r for part in parts for r in part]
     obligations = [o for r in recs for o in r["obligations"]]
     uses_cnt = any(o["uses_specs"] for o in obligations)
-    if uses_cnt:
-        for ob in lemmas.obligations(reg):
+    lem = list(lemmas.obligations(reg)) if uses_cnt else []
+    lem += lemmas.arith_obligations(reg)
+    if lem:
+        for ob in lem:
             obligations.append({"name": ob.name, "props": list(ob.props), "loc": ob.loc,
                                 "function": "lemma", "kind": "lemma", "clause": ob.clause, "path": 0,
                                 "trivial": False, "vacuous": False, "uses_specs": [],
@@ -247,7 +251,7 @@ def verify(repo="/repo", only=None, props=None, timeout_s=20, verbose=False):
         for site, text in r["covers"]:
             cov_keys.append((r["name"], site))
             cov_texts.append(text)
-    cov = solve.check_sat_texts(cov_texts, timeout_s=3)
+    cov = solve.check_sat_texts(cov_texts, timeout_s=1.5)
     covers = {}
     for (fn, site), status in zip(cov_keys, cov):
         key = "%s#%s" % (fn, site)
@@ -303,13 +307,38 @@ def summarize(reg, recs, obligations, res, covers, props=None, ledger=None):
             "assumptions": [], "delegated_to_bounded": []}
 
 
+def ghost_tags(reg, c):
+    """Property ids appearing in the assert labels of the ghost functions a contract hooks."""
+    import ast as _ast
+    hooks = c.hooks or {}
+    mod = hooks.get("module")
+    tags, seen = set(), set()
+    todo = [v for k, v in hooks.items() if k.startswith("emit_") or k in ("stop", "init")]
+    while todo:
+        fn = todo.pop()
+        if fn in seen:
+            continue
+        seen.add(fn)
+        try:
+            gi = reg.ghost_function(mod, fn)
+        except EngineError:
+            continue
+        for sub in _ast.walk(gi.node):
+            if isinstance(sub, _ast.Assert) and isinstance(sub.msg, _ast.Constant) and \
+                    isinstance(sub.msg.value, str) and ":" in sub.msg.value:
+                tags |= set(sub.msg.value.split(":")[0].split(","))
+            elif isinstance(sub, _ast.Call) and isinstance(sub.func, _ast.Name):
+                todo.append(sub.func.id)
+    return tags
+
+
 def functions_for(reg, prop):
     """Contracts that can carry obligations of a property."""
     names = []
     for name, c in reg.contracts.items():
         if c.assumed:
             continue
-        tags = set(c.props)
+        tags = set(c.props) | ghost_tags(reg, c)
         for _, _, p in c.ensures:
             tags |= set(p or ())
         for v in (c.exc_props or {}).values():
@@ -333,7 +362,37 @@ def run_property(prop, tier="quick", seed=0, repo="/repo"):
     for o in out["obligations"]:
         if o["status"] in ("failed", "unknown") and o.get("model"):
             o["replay_job"] = replay_job(reg, o, o["model"])
+    engine_checks(out, tier, repo, names)
     return out
+
+
+def engine_checks(out, tier, repo, names=None):
+    """The generator itself is checked on every run (DESIGN.md 3.3): CPython cross-check always,
+    mutation self-test on the thorough tier (restricted to mutants of the functions involved)."""
+    from . import crosscheck, selftest
+    try:
+        res = crosscheck.run(repo, verbose=False)
+        bad = [r for r in res if not r["agree"]]
+        out["cross_check"] = {"concrete_runs": len(res), "agree_with_cpython": len(res) - len(bad),
+                              "actions_compared": sum(r["actions"] for r in res),
+                              "disagreements": [r["detail"] for r in bad][:3]}
+        # a disagreement on the *unchanged* tree is an engine defect; on a changed tree the
+        # iterator may legitimately raise, so only flag when no obligation failed
+        if bad and all(o["status"] == "discharged" for o in out["obligations"]):
+            out["engine_error"] = "engine/CPython disagreement: %s" % bad[0]["detail"][:300]
+    except Exception as exc:
+        out["cross_check"] = {"error": repr(exc)[:300]}
+    if tier == "thorough":
+        try:
+            res = selftest.run(verbose=False, only_functions=names)
+            surv = [r for r in res if r[1] == "SURVIVED"]
+            out["mutation_selftest"] = {"mutants": len(res),
+                                        "killed": sum(1 for r in res if r[1].startswith("killed")),
+                                        "survived": [r[0] for r in surv]}
+            if surv:
+                out["engine_error"] = "mutation self-test: mutants survived: %s" % [r[0] for r in surv]
+        except Exception as exc:
+            out["mutation_selftest"] = {"error": repr(exc)[:300]}
 
 
 def run_all(tier="quick", seed=0, repo="/repo"):
@@ -347,6 +406,7 @@ def run_all(tier="quick", seed=0, repo="/repo"):
     for o in out["obligations"]:
         if o["status"] in ("failed", "unknown") and o.get("model"):
             o["replay_job"] = replay_job(reg, o, o["model"])
+    engine_checks(out, "quick", repo)
     return out
 
 
